@@ -14,7 +14,7 @@ import time
 
 from vlib import build as vbuild
 from vlib.common import Findings, Harness, HBIN, SYSCONF, log, mkwork, rmwork, rng_for, tier, write_evidence
-from vlib.drive import ensure_harness, pmap
+from vlib.drive import kill_stragglers, ensure_harness, pmap
 
 PROP = "C10"
 FMT = '%{filename}|%{cmdline}|%{tid_kernel}|%{snoopy_threads}'
@@ -40,7 +40,9 @@ def run_fork(arg):
                             "--victims", str(victims), "--stop-at", str(stop_at), "--stop-kind", kind, "--child-kind", str(child_kind)],
                            env=env, capture_output=True, timeout=120, cwd=work)
     except subprocess.TimeoutExpired:
+        kill_stragglers(work)
         return dict(harness_timeout=1, arg=arg[1:6])
+    kill_stragglers(work)           # a deadlocked child or grandchild of the scenario must not outlive it
     ev = None
     for line in r.stdout.splitlines():
         try:
